@@ -72,6 +72,33 @@ Section Entry.
         apply (cells_empty_cols A c m).
   Qed.
 
+
+  Lemma met_narrow_nonpositive_proof : forall (ws : list nat) (m : cellmat A) (dim start : nat) (len : Z),
+    rect_w ws m -> dim < 2 -> (len <= 0)%Z ->
+    narrow A _ (met_kernels A) (met_of_cells ws m) dim start len =
+    Some (met_of_cells (pick_ws dim [] ws) (pick dim [] m)).
+  Proof.
+    intros ws m dim start len Hr Hd Hl. unfold narrow, size.
+    destruct dim as [|[|dim]]; [| |lia];
+      cbn [Nat.eqb met_kernels k_rows k_cols k_empty] in *;
+      change (er (met_of_cells ws m)) with (length m); change (ec (met_of_cells ws m)) with (length ws).
+    - destruct ((start =? 0) && (Z.of_nat (length m) <=? Z.of_nat start + len)%Z) eqn:E1.
+      + apply andb_true_iff in E1. destruct E1 as [E1 E2]. apply Nat.eqb_eq in E1. apply Z.leb_le in E2.
+        assert (length m = 0) by lia. destruct m; [reflexivity|discriminate].
+      + replace (len <=? 0)%Z with true by (symmetry; apply Z.leb_le; lia).
+        apply (met_cells_empty_rows A ws m).
+    - destruct ((start =? 0) && (Z.of_nat (length ws) <=? Z.of_nat start + len)%Z) eqn:E1.
+      + apply andb_true_iff in E1. destruct E1 as [E1 E2]. apply Nat.eqb_eq in E1. apply Z.leb_le in E2.
+        assert (Hw : ws = []) by (destruct ws; [reflexivity|simpl in E2; lia]). subst ws.
+        unfold pick, pick_ws; cbn [Nat.eqb map]. unfold pick_cols.
+        assert (Hm : map (fun _ : list (list A) => @nil (list A)) m = m).
+        { unfold rect_w in Hr. induction Hr as [|x l0 Hx Hl0 IH]; simpl; [reflexivity|].
+          f_equal; [destruct x; [reflexivity|discriminate]|exact IH]. }
+        simpl. rewrite Hm. reflexivity.
+      + replace (len <=? 0)%Z with true by (symmetry; apply Z.leb_le; lia).
+        apply (met_cells_empty_cols A ws m).
+  Qed.
+
   (* the dimension argument as Python passes it *)
   Lemma normalize_dim_z_spec_proof : forall d : Z,
     normalize_dim_z d =
